@@ -436,7 +436,7 @@ type c23Step struct {
 }
 
 // c23Run executes one case. next(nImportable, nFinalisable) chooses the next op; it returns ok=false to stop.
-func c23Run(t c23T, blocks []c23Block, allowFinaliseError bool, next func(nImp, nFin int) (c23Step, bool), record bool) {
+func c23Run(t c23T, blocks []c23Block, allowFinaliseError bool, next func(nImp, nFin int) (c23Step, bool), record bool, extra ...string) {
 	h, gen, err := c23NewHarness()
 	if err != nil {
 		t.Fatalf("harness: %v", err)
@@ -452,6 +452,10 @@ func c23Run(t c23T, blocks []c23Block, allowFinaliseError bool, next func(nImp, 
 	}
 	var hist strings.Builder
 	labels := map[string]bool{}
+	for _, l := range extra {
+		labels[l] = true
+	}
+	forcedAnnounced := 0
 	lastFinal := 0
 	forcedLine := -1 // block at whose import a forced change was enacted last
 	round := uint64(0)
@@ -604,6 +608,26 @@ func c23Run(t c23T, blocks []c23Block, allowFinaliseError bool, next func(nImp, 
 			if gotErr == nil {
 				gotErr = h.gs.ApplyForcedChanges(hdr)
 			}
+			if ch != nil && ch.forced {
+				// shape labels, from the model's pending list before this import
+				blocker := -1
+				for k, f := range m.forced {
+					if m.isDescOrEq(f.ann, i) {
+						blocker = k
+						break
+					}
+				}
+				if blocker >= 0 {
+					labels["second-forced-attempt-while-one-pending"] = true
+					for k := 0; k < blocker; k++ {
+						if m.forced[k].number >= ch.number {
+							// an entry of a competing fork with an announcing number >= ours sorts before the
+							// pending change of our own fork (effective order != announcing order)
+							labels["second-forced-attempt-behind-crossing-entry"] = true
+						}
+					}
+				}
+			}
 			enacted, wantErr := m.importBlock(i, ch)
 			if (gotErr != nil) != (wantErr != nil) {
 				t.Fatalf("import of b%d: implementation error %v, model error %v; history: %s", i, gotErr, wantErr, hist.String())
@@ -626,6 +650,23 @@ func c23Run(t c23T, blocks []c23Block, allowFinaliseError bool, next func(nImp, 
 				announcers = append(announcers, i)
 				if ch.forced {
 					labels["forced-announced"] = true
+					forcedAnnounced++
+					if forcedAnnounced >= 2 {
+						labels["forced-announced>=2"] = true
+					}
+					if forcedAnnounced >= 3 {
+						labels["forced-announced>=3"] = true
+					}
+					if len(m.forced) >= 2 {
+						labels["forced-pending-on->=2-forks"] = true
+					}
+					for _, f := range m.forced {
+						for _, g := range m.forced {
+							if f.number > g.number && f.eff() < g.eff() {
+								labels["forced-pending-effective-order!=announcing-order"] = true
+							}
+						}
+					}
 				} else {
 					labels["scheduled-announced"] = true
 				}
@@ -736,6 +777,107 @@ func TestC23AuthoritySetChanges(t *testing.T) {
 			final := nFin > 0 && rapid.IntRange(0, 3).Draw(t, "op") == 0
 			return c23Step{final: final, pick: rapid.IntRange(0, 15).Draw(t, "pick")}, true
 		}, true)
+	})
+}
+
+// c23GenForcedHeavy builds a trunk of 0-2 blocks and 2-3 forks of 3-5 blocks from its tip (sometimes a nested fork), with
+// 2-4 forced changes: mostly the "crossing" shape (fork A signals late with a short delay, fork B signals early with a
+// long delay, so that effective order and announcing order disagree, and B tries a second forced change in between).
+func c23GenForcedHeavy(t *rapid.T) ([]c23Block, []string) {
+	blocks := []c23Block{{parent: -1}}
+	add := func(p int) int {
+		blocks = append(blocks, c23Block{parent: p, number: blocks[p].number + 1})
+		return len(blocks) - 1
+	}
+	tip := 0
+	for i, n := 0, rapid.IntRange(0, 2).Draw(t, "trunk"); i < n; i++ {
+		tip = add(tip)
+	}
+	nforks := rapid.IntRange(2, 3).Draw(t, "forks")
+	maxLen := 5
+	if nforks == 3 {
+		maxLen = 4
+	}
+	forks := make([][]int, nforks)
+	for f := range forks {
+		p := tip
+		if f == 2 && rapid.Bool().Draw(t, "nested") {
+			p = forks[0][0] // a fork inside fork 0
+		}
+		for j, l := 0, rapid.IntRange(3, maxLen).Draw(t, "len"); j < l; j++ {
+			p = add(p)
+			forks[f] = append(forks[f], p)
+		}
+	}
+	forced := func(b int, delay int) {
+		blocks[b].kind = 2
+		blocks[b].delay = uint(delay)
+		blocks[b].medianOff = uint(rapid.IntRange(0, 2).Draw(t, "medianOff"))
+	}
+	shape := "forced-heavy-random"
+	a, b := 0, 1
+	if rapid.Bool().Draw(t, "swap") {
+		a, b = 1, 0
+	}
+	A, B := forks[a], forks[b]
+	if rapid.IntRange(0, 9).Draw(t, "crossing") < 7 {
+		shape = "forced-heavy-crossing"
+		dB := rapid.IntRange(0, 1).Draw(t, "dB")
+		dA := dB + rapid.IntRange(0, 2).Draw(t, "dAoff")
+		if dA > len(A)-1 {
+			dA = len(A) - 1
+		}
+		delayA := rapid.IntRange(1, 3).Draw(t, "delayA")
+		delayB := (dA - dB) + delayA + rapid.IntRange(1, 2).Draw(t, "delayBextra")
+		forced(A[dA], delayA)
+		forced(B[dB], delayB)
+		if rapid.IntRange(0, 3).Draw(t, "second") > 0 {
+			hi := dA
+			if hi > len(B)-1 {
+				hi = len(B) - 1
+			}
+			if hi < dB+1 {
+				hi = dB + 1
+			}
+			if hi <= len(B)-1 {
+				forced(B[rapid.IntRange(dB+1, hi).Draw(t, "pos3")], rapid.IntRange(0, 3).Draw(t, "delay3"))
+			}
+		}
+	} else {
+		for _, F := range forks[:2] {
+			p := rapid.IntRange(0, len(F)-2).Draw(t, "pos")
+			forced(F[p], rapid.IntRange(1, 6).Draw(t, "delay"))
+			if rapid.Bool().Draw(t, "second") {
+				forced(F[rapid.IntRange(p+1, len(F)-1).Draw(t, "pos2")], rapid.IntRange(0, 4).Draw(t, "delay2"))
+			}
+		}
+	}
+	// a few more changes anywhere
+	for i := 1; i < len(blocks); i++ {
+		if blocks[i].kind != 0 {
+			continue
+		}
+		switch rapid.IntRange(0, 19).Draw(t, "more") {
+		case 0, 1:
+			blocks[i].kind = 1
+			blocks[i].delay = uint(rapid.IntRange(0, 3).Draw(t, "sdelay"))
+		case 2:
+			forced(i, rapid.IntRange(0, 4).Draw(t, "fdelay"))
+		}
+	}
+	return blocks, []string{shape, "forks>=3-blocks-after-branch-point"}
+}
+
+// TestC23ForcedHeavy: the same driver and oracle on trees built around several forced changes on competing forks.
+func TestC23ForcedHeavy(t *testing.T) {
+	defer kit.Flush()
+	kit.Note("rule", c23Rule)
+	rapid.Check(t, func(t *rapid.T) {
+		blocks, extra := c23GenForcedHeavy(t)
+		c23Run(t, blocks, false, func(nImp, nFin int) (c23Step, bool) {
+			final := nFin > 0 && rapid.IntRange(0, 7).Draw(t, "op") == 0
+			return c23Step{final: final, pick: rapid.IntRange(0, 15).Draw(t, "pick")}, true
+		}, true, extra...)
 	})
 }
 
